@@ -5,7 +5,8 @@
 //! * `loss`      : every `Loss` x scaling factor x residual against the documented closed form.
 //! * `estimator` : every `DataSet` type: predict vs the library call it wraps, targets in the
 //!                 implied unit, zero difference / zero cost for model-generated targets,
-//!                 `DataSet::cost` and `Estimator::cost` composition.
+//!                 `DataSet::cost` and `Estimator::cost` composition for estimators built by `new` and by
+//!                 generated `new` + `add_data` sequences.
 use crate::engine::{Ctx, Gen, Obs, PanicPolicy, PartCfg};
 use crate::model::*;
 use feos::core::{
@@ -661,6 +662,12 @@ pub struct DsEntry {
 pub struct ECase {
     pub spec: ModelSpec,
     pub sets: Vec<DsEntry>,
+    /// how the second estimator of the case is built: the first `n_new` data sets (with their raw,
+    /// un-normalised weights) go through `Estimator::new`, the remaining ones through successive
+    /// `Estimator::add_data` calls (0 = empty estimator + add_data only). None (old replay files):
+    /// everything through `new`.
+    #[serde(default)]
+    pub n_new: Option<usize>,
 }
 
 const ALKANES: [&str; 8] = ["propane", "butane", "pentane", "hexane", "heptane", "octane", "isobutane", "isopentane"];
@@ -783,7 +790,9 @@ pub fn decode_estimator(g: &mut Gen) -> ECase {
             .collect();
         sets.push(DsEntry { ds, weight: g.log_range(1e-3, 1e3), loss: gen_loss(g), delta });
     }
-    ECase { spec, sets }
+    // construction sequence of the second estimator (drawn last: earlier genes keep their meaning)
+    let n_new = Some(g.index(nsets + 1));
+    ECase { spec, sets, n_new }
 }
 
 type DS = Arc<dyn DataSet<Model>>;
@@ -1321,6 +1330,36 @@ pub fn check_estimator(case: &ECase, obs: &mut Obs) {
             close_vec(obs, "Estimator::cost", "Estimator::cost = concat(w_i / sum w * DataSet::cost_i)", &c.to_vec(), &expect, TOL_COST, 1e-3 * scale);
         }
     }
+    // ---- (5b) the same data sets entered through `new` (first k) + `add_data` (the rest), raw
+    //      weights: the cost must use w_i / sum(w) over ALL stored weights, whatever the history ----
+    let k = case.n_new.unwrap_or(data.len()).min(data.len());
+    if k < data.len() {
+        let mut e2 = Estimator::new(data[..k].to_vec(), weights[..k].to_vec(), losses[..k].iter().map(|l| l.lib()).collect());
+        for i in k..data.len() {
+            e2.add_data(&data[i], weights[i], losses[i].lib());
+        }
+        obs.class(format!("estimator built by new({k}) + {} x add_data", data.len() - k));
+        obs.ensure(e2.datasets().len() == data.len(), || format!("new({k}) + add_data: {} data sets stored, expected {}", e2.datasets().len(), data.len()));
+        match e2.cost(&model) {
+            Err(e) => obs.fail(format!("Estimator::cost of an estimator built by new({k}) + add_data failed: {e}")),
+            Ok(c) => {
+                let expect: Vec<f64> = expected_cost.iter().zip(weights.iter()).flat_map(|(c, w)| c.iter().map(move |ci| ci * w / wsum)).collect();
+                let scale = expect.iter().fold(0.0f64, |a, b| a.max(b.abs()));
+                close_vec(obs, "Estimator::cost (new + add_data)", &format!("Estimator::cost after new({k}) + {} x add_data = concat(w_i / sum w * DataSet::cost_i)", data.len() - k), &c.to_vec(), &expect, TOL_COST, 1e-3 * scale);
+            }
+        }
+        match e2.predict(&model) {
+            Err(e) => obs.fail(format!("Estimator::predict (new + add_data) failed: {e}")),
+            Ok(p) => {
+                obs.ensure(p.len() == expected_pred.len(), || "Estimator::predict (new + add_data): wrong number of data sets".to_string());
+                for (a, b) in p.iter().zip(expected_pred.iter()) {
+                    close_vec(obs, "Estimator::predict", "Estimator::predict (new + add_data) = DataSet::predict", &a.to_vec(), b, 1e-14, 0.0);
+                }
+            }
+        }
+    } else {
+        obs.class("estimator built by new only");
+    }
     match estimator.predict(&model) {
         Err(e) => obs.fail(format!("Estimator::predict failed: {e}")),
         Ok(p) => {
@@ -1418,7 +1457,7 @@ const PART_E: PartCfg = PartCfg {
 };
 
 pub fn run(ctx: &Ctx) {
-    ctx.set_rule("transport: proptest genomes -> (PC-SAFT record: loetgeringlin2018 with its shipped viscosity coefficients | loetgeringlin2018 with random viscosity coefficients | random physical record; always random diffusion and thermal-conductivity coefficients; DQ35/DQ44) or (SAFT-VRQ Mie record of aasen2019 / aasen2019_fh2 / hammer2023 with random coefficients; T >= 15 K) x T/Tc in [0.5,2] x rho/rho_max (half uniform 0.05-0.85, half log-uniform 1e-5-0.5) x second record for the binary with x2 in {0, 1e-12} x second temperature for the state of equal residual entropy (harness bisection on residual_molar_entropy). Non-trivial: all three properties evaluated and |s_res| > 1e-6 k_B. loss: Loss kind x scaling factor log-uniform 1e-3..1e2 x 1-24 residuals (around |r| = f, log-uniform 1e-6..1e3, uniform 0..1e3, either sign); non-trivial: residuals on both sides of |r| = f. estimator: pure model (loetgeringlin2018 / gross2001 record + random transport coefficients) with 1-3 data sets out of VaporPressure(+-extrapolate, T up to 1.25 Tc, optional T_c guess), LiquidDensity, EquilibriumLiquidDensity, Viscosity, Diffusion, ThermalConductivity (phase None / given), or a gross2001 alkane pair with 1-3 of BinaryVleChemicalPotential, BinaryVlePressure (Liquid / Vapor), BinaryPhaseDiagram (T / p specification); 1-20 points; weights log-uniform 1e-3..1e3; loss of any kind; targets = model prediction x (1 + delta), |delta| log-uniform 1e-4..0.5. Non-trivial: at least one data set with >= 3 points. Distinct by hash of the canonical case JSON.");
+    ctx.set_rule("transport: proptest genomes -> (PC-SAFT record: loetgeringlin2018 with its shipped viscosity coefficients | loetgeringlin2018 with random viscosity coefficients | random physical record; always random diffusion and thermal-conductivity coefficients; DQ35/DQ44) or (SAFT-VRQ Mie record of aasen2019 / aasen2019_fh2 / hammer2023 with random coefficients; T >= 15 K) x T/Tc in [0.5,2] x rho/rho_max (half uniform 0.05-0.85, half log-uniform 1e-5-0.5) x second record for the binary with x2 in {0, 1e-12} x second temperature for the state of equal residual entropy (harness bisection on residual_molar_entropy). Non-trivial: all three properties evaluated and |s_res| > 1e-6 k_B. loss: Loss kind x scaling factor log-uniform 1e-3..1e2 x 1-24 residuals (around |r| = f, log-uniform 1e-6..1e3, uniform 0..1e3, either sign); non-trivial: residuals on both sides of |r| = f. estimator: pure model (loetgeringlin2018 / gross2001 record + random transport coefficients) with 1-3 data sets out of VaporPressure(+-extrapolate, T up to 1.25 Tc, optional T_c guess), LiquidDensity, EquilibriumLiquidDensity, Viscosity, Diffusion, ThermalConductivity (phase None / given), or a gross2001 alkane pair with 1-3 of BinaryVleChemicalPotential, BinaryVlePressure (Liquid / Vapor), BinaryPhaseDiagram (T / p specification); 1-20 points; weights log-uniform 1e-3..1e3 (never normalised by the harness); loss of any kind; two estimators per case: all data sets through Estimator::new, and a generated split: the first k (0..=n) through new, the rest through successive add_data calls; targets = model prediction x (1 + delta), |delta| log-uniform 1e-4..0.5. Non-trivial: at least one data set with >= 3 points. Distinct by hash of the canonical case JSON.");
     ctx.assume("transport: value vs reference*exp(ln reduced) 1e-13; ln reduced vs the documented correlation functions (viscosity A+Bs+Cs^2+Ds^3, diffusion A+Bs-C(1-e^s)s^2-Ds^4-Es^8, thermal conductivity A+Bs+C(1-e^s)+Ds^2, s = s_res/(R m)) evaluated by the harness 1e-12 of sum|terms|+1; PC-SAFT viscosity reference vs the Chapman-Enskog viscosity with the Neufeld collision integral recomputed by the harness in SI 1e-11 (extension of the stated property: pins the unit of the reference); vanishing second component 1e-10 for x2 = 0 and 3e-8 (1+|ln eta_reduced|) for x2 = 1e-12; states whose |ln reduced| exceeds 200 (random records with |s_res/m| > 10 or positive s_res, outside any fitted range: exp() overflows by construction) are discarded and counted; equal residual entropy 1e-9 after a bisection converged to 1e-12; diffusion / thermal conductivity exist for one-component models only (clean Err for two components is asserted)");
     ctx.assume("loss: |apply(r)|^2 vs f^2 rho(r^2/f^2) with rho evaluated without cancellation; 1e-12 relative + 1e-13 f^2 absolute (sqrt(1+z)-1 and ln(1+z) lose the digits of z below 1e-16 in the library's direct evaluation)");
     ctx.assume("estimator: predict vs wrapped library call 1e-13 (extrapolated vapour pressure 1e-10); NaN / Err policies of the data sets are mirrored (NaN for failing points of VaporPressure, LiquidDensity, EquilibriumLiquidDensity; Err of the whole prediction for transport and binary data sets); targets handed over in bar, g/cm3, Pa s, m2/s, kPa and compared in the implied units Pa, kg/m3, mPa s, cm2/s, Pa; zero relative difference 1e-12 for explicit targets, 1e-6 where the *inputs* come from a bubble-point / phase-diagram solver (BinaryVleChemicalPotential, BinaryPhaseDiagram); BinaryPhaseDiagram: points on the model's own polyline predict (1,1) within 1e-9, every predicted point lies on the polyline (1e-9); library results used as inputs are trusted (C04/C05)");
